@@ -372,7 +372,9 @@ class AsyncChannel(BaseChannel):
             return_interval,
         ) = self._pre_channel_authenticate_telnet()
 
-        read_interval = self._base_channel_args.timeout_ops / 20
+        # a timeout_ops of 0 means "no timeout"; polling with an interval of 0 would cancel every read
+        # before it ran, so in that case wait for the read to complete like the sync channel does
+        read_interval = self._base_channel_args.timeout_ops / 20 or None
         return_attempts = 1
 
         async with self._channel_lock():
